@@ -146,6 +146,7 @@ def run(run, tier):
     from . import esirx
     esirx.part(run, tier, 'C09', props, per)
     C.extra_props(run, 'C09', props, ['C09esis'])
+    from . import genx; genx.part(run, tier, 'C09', props, per)
     if not props['ok']:
         run.violation('C09/proof', 'Props/C09.v no longer checks: %s' % props['log'][-400:], {'broken': 'coq/Props/C09.v', 'log': props['log']}, no_input=True)
     C.proof_coverage(run, props, total.n, min(len(total.distinct), total.nontrivial),
